@@ -73,6 +73,14 @@ def parseCalibs? (s : String) : Option (List (Nat × Calib)) :=
     | [bs, f, uid, v] => do pure ((← bs.toNat?), (← calibOf? (← parseDots? f) (← uid.toInt?) (← v.toNat?)))
     | _ => none
 
+def showDeck (p : Nat × DeckInfo) : String :=
+  let d := p.2
+  s!"{p.1}:{d.bf1}:{d.bf2}:{d.requiredHash}:{d.requiredLength}:{d.baseAddress}:{d.cmdBase}:{dots d.name}:{"".intercalate (d.flags.map b01)}"
+
+def showDeckResult : DeckResult → String
+  | .decks l => "decks " ++ (if l.isEmpty then "-" else ";".intercalate (l.map showDeck))
+  | .unsupported v => s!"unsupported {v}"
+
 def step (_ : Unit) (ws : List String) : Unit × String :=
   let r : String :=
     match ws with
@@ -124,6 +132,10 @@ def step (_ : Unit) (ws : List String) : Unit × String :=
           let cr := (List.range Gen.C14.lhNrOfChannels).map fun bs => showRes showLhObj (lhReadCalib m bs)
           "ok " ++ ";".intercalate (gr ++ cr)
       | _, _, _ => "bad-op"
+    | ["deck_info", mem] =>
+      match ofHex? mem with
+      | some m => showExcept showDeckResult (deckQuery m)
+      | none => "bad-op"
     | _ => "bad-op"
   ((), r)
 
